@@ -380,7 +380,12 @@ def run(tier, seed, report):
             from hashstore.filehashstore import FileHashStore
             for (d, w, a) in [(3, 2, "SHA-256"), (1, 4, "MD5"), (5, 1, "SHA-512")]:
                 root = os.path.join(base, "c%d%d" % (d, w))
-                res, text, log = run_client([root, "-chs", "-dp=%d" % d, "-wp=%d" % w, "-ap=%s" % a, "-nsp=%s" % NS])
+                # both spellings of the four creation options are documented
+                long_names = rng.random() < 0.5
+                fl = {"d": "-store_depth", "w": "-store_width", "a": "-store_algorithm", "n": "-store_namespace"} if long_names else \
+                     {"d": "-dp", "w": "-wp", "a": "-ap", "n": "-nsp"}
+                res, text, log = run_client([root, "-chs", "%s=%d" % (fl["d"], d), "%s=%d" % (fl["w"], w), "%s=%s" % (fl["a"], a),
+                                             "%s=%s" % (fl["n"], NS)])
                 stats["cases"] += 1
                 try:
                     FileHashStore(properties={"store_path": root, "store_depth": d, "store_width": w,
